@@ -319,6 +319,10 @@ F_C04_inv(cfg, S) ==
              /\ \A a, b \in DOMAIN sv : a # b => sv[a].id # sv[b].id /\ (sv[a].cust # 0 => sv[a].cust # sv[b].cust)
              /\ \A j \in DOMAIN S.cu : S.cu[j].loc = n /\ S.cu[j].srv > 0 =>
                     \E a \in DOMAIN sv : sv[a].id = S.cu[j].srv /\ sv[a].cust = S.cu[j].id)
+    \cup Chk("C04.service-in-progress-holds-a-present-server", \A j \in DOMAIN S.cu :
+          \* whoever is being served at a finite-server node is attached to a server that is still there
+          LET c == S.cu[j]
+          IN c.loc \in 1..NN(S) /\ FiniteServers(cfg, S, c.loc) /\ c.ss # NONE /\ ~c.intr => c.srv > 0)
     \cup Chk("C04.at-most-c-in-service", \A n \in 1..NN(S) : FiniteServers(cfg, S, n) =>
           LET sv == S.nodes[n].srv
               onduty == {a \in DOMAIN sv : ~sv[a].off}
